@@ -491,7 +491,9 @@ def master_cell(cell):
         script = [("tick",)] * 2 + [("hang", 0, "ignore-abrt")] + [("tick",)] * (T + 4)
         k0, o0 = master_run(T, "fixed", 0.0, 0.0, script, workers=3)
         start = k0.quiescent_points[2] if len(k0.quiescent_points) > 2 else 0
-        for idx in range(start, k0.npoints):
+        # the base run has ~100 delivery points; a master gone wild (kill / respawn storm) has thousands: the first 400 are
+        # enough to show what is wrong, and the check stays bounded
+        for idx in range(start, min(k0.npoints, start + 400)):
             for ev in (("exit", 1, 0), ("exit", 2, 9)):
                 k, o = master_run(T, "fixed", 0.0, 0.0, script, workers=3, inject={idx: ev})
                 label = k.point_labels[idx] if idx < len(k.point_labels) else "?"
@@ -517,6 +519,14 @@ def tmp_roundtrip():
         @staticmethod
         def monotonic():
             return T_.now
+
+        @staticmethod
+        def monotonic_ns():
+            return int(round(T_.now * 1e9))
+
+        @staticmethod
+        def time_ns():
+            return int(round((T_.now + 1700000000.0) * 1e9))
 
         @staticmethod
         def time():
